@@ -410,6 +410,126 @@ func init() {
 				},
 			},
 			{
+				// boxes very unlike the ring in size. (a) A box far smaller than anything about the ring (sides of 2^-540 ..
+				// 2^-1000 at the origin; products of two such lengths are not representable): where the ring's boundary keeps
+				// away from it, the box is wholly inside the region (the clipped ring covers it) or wholly outside (nothing of
+				// it is covered). (b) A box side that lies beyond every vertex does not matter: wherever it is put (just
+				// beyond the ring, 1e300, 1.5e308 - a box wider than the largest float -, infinity: half planes, strips,
+				// quadrants), the clipped ring is the same, bit for bit.
+				Name: "boxes-of-extreme-size", Count: h.Fixed(6000, 1000000),
+				Run: func(c *h.Ctx, idx uint64, r *h.Rand) {
+					ring, kind := c08genRing(r)
+					if idx%2 == 0 {
+						// ---- (a)
+						sx, sy := float64(r.Range(-24, 4))/2, float64(r.Range(-24, 4))/2
+						ring = append([]P{}, ring...)
+						for i := range ring {
+							ring[i][0] += sx
+							ring[i][1] += sy
+						}
+						dx, dy := math.Ldexp(1, -r.Range(540, 1000)), math.Ldexp(1, -r.Range(540, 1000))
+						if r.P(1, 4) {
+							dx = math.Ldexp(1, -r.Range(2, 60)) // a sliver: one side tiny only
+						}
+						box := [4]float64{0, 0, dx, dy}
+						switch r.Intn(4) {
+						case 0:
+							box = [4]float64{-dx, -dy, 0, 0}
+						case 1:
+							box = [4]float64{-dx, -dy, dx, dy}
+						case 2:
+							box = [4]float64{-dx, 0, dx, dy}
+						}
+						ctr := P{(box[0] + box[2]) / 2, (box[1] + box[3]) / 2}
+						scale := math.Max(maxAbs(ring), 1)
+						if !farFrom(ctr, ring, 1e-6*scale) || math.Max(dx, dy) > 1e-9 {
+							c.Count("tiny_boxes_close_to_the_boundary_(not_judged)", 1)
+							return
+						}
+						cs := c08case{box, ring}
+						c.Note([]byte(fmt.Sprintf("box=%v ring=%v", box, ring)))
+						out := clip.Ring(boundOf(box[0], box[1], box[2], box[3]), pToRing(ring))
+						c.Eval()
+						op := lsToP(out)
+						in0, _ := exact.Locate(ring, ctr)
+						probes := []P{ctr}
+						for _, f := range [][2]float64{{0.25, 0.25}, {0.75, 0.25}, {0.75, 0.75}, {0.25, 0.75}} {
+							probes = append(probes, P{box[0] + f[0]*(box[2]-box[0]), box[1] + f[1]*(box[3]-box[1])})
+						}
+						if len(op) > 0 && op[0] != op[len(op)-1] {
+							c.Fail("", "clipped ring is not closed", map[string]interface{}{"case": cs, "got": sv(out)})
+						}
+						for _, v := range op {
+							if !inBoxTol(v, box, 1e-9*math.Max(dx, dy)) {
+								c.Fail("", "clipped ring has a vertex outside the box", map[string]interface{}{"case": cs, "vertex": v, "got": sv(out)})
+								break
+							}
+						}
+						for _, q := range probes {
+							in1, on1 := exact.Locate(op, q)
+							if on1 {
+								continue
+							}
+							if in1 != in0 {
+								c.Fail("", "a point strictly inside the box changed sides: in(original) != in(clipped)", map[string]interface{}{"case": cs, "point": q, "in_original": in0, "in_clipped": in1, "got": sv(out), "box_sides": []float64{dx, dy}})
+								break
+							}
+						}
+						if in0 {
+							c.Count("tiny_boxes_wholly_inside_the_region", 1)
+							c.Nontrivial(h.Mix(hashP(ring), h.HashFloats(box[:]...)))
+						} else {
+							c.Count("tiny_boxes_wholly_outside_the_region", 1)
+						}
+						c.Count("ring_kind_"+kind, 1)
+						return
+					}
+					// ---- (b)
+					box := c08box(r, -1, 13, kind != "star" && kind != "arbitrary-float" || r.P(1, 3))
+					ext := maxAbs(ring) + 1
+					farMax := []float64{math.Inf(1), 1.5e308, math.MaxFloat64, 1e300, 1e6, ext + 7, ext}
+					b1, b2 := box, box
+					sides := 1 + r.Intn(15)
+					for k := 0; k < 4; k++ {
+						if sides&(1<<uint(k)) == 0 {
+							continue
+						}
+						i, j := r.Intn(len(farMax)), r.Intn(len(farMax)-1)
+						if j >= i {
+							j++
+						}
+						b1[k], b2[k] = farMax[i], farMax[j]
+						if k < 2 {
+							b1[k], b2[k] = -b1[k], -b2[k]
+						}
+					}
+					c.Note([]byte(fmt.Sprintf("box1=%v box2=%v ring=%v", b1, b2, ring)))
+					o1 := clip.Ring(boundOf(b1[0], b1[1], b1[2], b1[3]), pToRing(ring))
+					o2 := clip.Ring(boundOf(b2[0], b2[1], b2[2], b2[3]), pToRing(ring))
+					c.Evals(2)
+					if !bitsEqualPts(o1, o2) || (o1 == nil) != (o2 == nil) {
+						c.Fail("", "moving a box side that lies beyond every vertex changes the clipped ring", map[string]interface{}{"ring": ring, "box1": b1, "box2": b2, "clipped1": sv(o1), "clipped2": sv(o2)})
+					}
+					if sides == 15 {
+						if !bitsEqualPts(o1, pToRing(ring)) {
+							c.Fail("", "a ring wholly inside the box does not come back unchanged", map[string]interface{}{"case": c08case{b1, ring}, "got": sv(o1)})
+						}
+					} else {
+						// the sides left in place still cut: vertices within the box
+						for _, v := range o1 {
+							if !inBoxTol(P{v[0], v[1]}, b1, 1e-9*ext) {
+								c.Fail("", "clipped ring has a vertex outside the box", map[string]interface{}{"case": c08case{b1, ring}, "vertex": v, "got": sv(o1)})
+								break
+							}
+						}
+					}
+					c.Count("boxes_with_sides_beyond_every_vertex", 1)
+					if len(o1) > 0 {
+						c.Nontrivial(h.Mix(hashP(ring), h.HashFloats(b1[:]...)))
+					}
+				},
+			},
+			{
 				Name: "polygons", Count: h.Fixed(6000, 1500000),
 				Run: func(c *h.Ctx, idx uint64, r *h.Rand) {
 					snap := 0.0
